@@ -2,8 +2,8 @@
 import itertools, random
 from .. import core, hist, world as W
 
-MODULES = ['DsdVerif.Props.C01', 'DsdVerif.Props.PySingleton']
-GEN_FILES = ['PySingleton']
+MODULES = ['DsdVerif.Props.C01', 'DsdVerif.Props.PySingleton', 'DsdVerif.Props.PyComplexS3']
+GEN_FILES = ['PySingleton', 'PyComplexS3', 'PyComplexS', 'PyIdentifiers']
 THEOREM_NAMES = ['wf_init', 'wf_lookup', 'wf_unique', 'wf_call', 'wf_drop', 'wf_steps', 'consistent_returns_same',
                  'conflict_raises_unchanged', 'name_only', 'refused_no_effect', 'create_only_when_free',
                  'complex_keys_admissible', 'complex_keys_unregistered', 'domain_name_only_creates_only_starred']
@@ -12,6 +12,9 @@ THEOREMS = ['Dsd.C01.' + t for t in THEOREM_NAMES] + ['Dsd.PySingleton.' + t for
     # run; the class with its two dictionaries is the state) equal the statement-level model callFull; the C01 theorems for the code as written
     'py_call_eq_callFull', 'py_call_eq_call', 'py_call_empty_name', 'rep_init', 'py_consistent_returns_same', 'py_conflict_raises_unchanged',
     'py_name_only', 'py_refused_no_effect', 'py_create_only_when_free', 'py_wf_call', 'initKeys_takeover', 'py_clear_singletons_spec']]
+# the whole ComplexS.__init__ as written in the source (translator/pycomplex3.py -> Gen/PyComplexS3.lean) and its composition with the translated
+# identifiers and the translated Singleton.__call__: the same name at both sites, exactly the visited rotations registered, the request of the model
+THEOREMS += ['Dsd.PyComplexS3.' + t for t in ['py_init_full_eq', 'py_init_full_asserts', 'py_init_attrs_eq_pymethod', 'py_init_registers_eq_construct', 'py_init_after_identifiers', 'py_complex_request_eq_full']]
 ASSUMPTIONS = [
     'WeakValueDictionary semantics is modelled: an entry exists exactly while its value is strongly reachable (Model/Registry.lean, '
     'Model/World.lean: reachability from user handles through containment)',
